@@ -156,6 +156,53 @@ def at_axiom():
     return z3.ForAll([s, i], z3.Implies(z3.And(i >= 0, i < z3.Length(s)), at(s, i) == s[i]), patterns=[at(s, i)])
 
 
+def at_axioms(bridge=False):
+    """Axioms of the uninterpreted, E-matching friendly views of sequences: at(s,i) (element) and member(s,x).
+
+    All of them are consequences of the definitions at(s,i) == s[i] (0 <= i < |s|) and member(s,x) <=> Contains(s, Unit(x)).
+    The two defining (bridging) equations themselves are only included on request: they pull z3's native sequence solver
+    into every query and make verdicts unstable; the engine and the specifications use at/member exclusively for lists."""
+    a, b = z3.Consts('aa ab', SeqP())
+    i = z3.Int('ai')
+    x = z3.Const('ax', PyObj())
+    y = z3.Const('ay', PyObj())
+    j, n = z3.Ints('aj an')
+    return ([at_axiom(), z3.ForAll([a, x], member(a, x) == z3.Contains(a, z3.Unit(x)), patterns=[member(a, x)])] if bridge else []) + [
+            z3.ForAll([a, i, j, n], z3.Implies(z3.And(i >= 0, i < n, j >= 0, j + n <= z3.Length(a)),
+                                               at(z3.Extract(a, j, n), i) == at(a, j + i)), patterns=[at(z3.Extract(a, j, n), i)]),
+            z3.ForAll([a, b, i], z3.Implies(z3.And(i >= 0, i < z3.Length(a) + z3.Length(b)),
+                                            at(z3.Concat(a, b), i) == z3.If(i < z3.Length(a), at(a, i), at(b, i - z3.Length(a)))),
+                      patterns=[at(z3.Concat(a, b), i)]),
+            z3.ForAll([x, i], z3.Implies(i == 0, at(z3.Unit(x), i) == x), patterns=[at(z3.Unit(x), i)]),
+            # membership as an uninterpreted predicate (z3 rewrites the native seq.contains, so it cannot serve as a pattern):
+            # member(s, x) <=> Contains(s, Unit(x)); element at an index is a member; a member has an index
+            z3.ForAll([a, i], z3.Implies(z3.And(i >= 0, i < z3.Length(a)), member(a, at(a, i))), patterns=[at(a, i)]),
+            z3.ForAll([a, x], z3.Implies(member(a, x),
+                                         z3.And(idx_of(a, x) >= 0, idx_of(a, x) < z3.Length(a), at(a, idx_of(a, x)) == x)),
+                      patterns=[member(a, x)]),
+            z3.ForAll([a, b, x], member(z3.Concat(a, b), x) == z3.Or(member(a, x), member(b, x)), patterns=[member(z3.Concat(a, b), x)]),
+            z3.ForAll([x, y], member(z3.Unit(y), x) == (x == y), patterns=[member(z3.Unit(y), x)]),
+            z3.ForAll([x], z3.Not(member(empty_seq(), x)), patterns=[member(empty_seq(), x)])]
+
+
+_member = None
+def member(seq, x):
+    """x occurs in the sequence (uninterpreted, E-matching friendly; equivalent to the native Contains(seq, Unit(x)))"""
+    global _member
+    if _member is None:
+        _member = z3.Function('member', SeqP(), PyObj(), z3.BoolSort())
+    return _member(seq, x)
+
+
+_idx_of = None
+def idx_of(seq, x):
+    """skolem function: some index of x in seq when seq contains x"""
+    global _idx_of
+    if _idx_of is None:
+        _idx_of = z3.Function('idx_of', SeqP(), PyObj(), z3.IntSort())
+    return _idx_of(seq, x)
+
+
 def forall(vs, body, patterns=None):
     """ForAll with E-matching patterns; patterns that z3 rejects (they contain ite/connectives after a ghost update) are dropped
     one by one — in goal position the quantifier is skolemised anyway"""
